@@ -352,11 +352,12 @@ fn seq() -> BoxedStrategy<Seq> {
             let k = (r as usize) % steps.len();
             let overhead = steps[k].0.spec(0).overhead();
             let budget = match kind {
-                0 | 1 => r as usize % 65,
-                2 => 1152,
-                3 | 4 | 5 => (overhead + 11 + (r as usize / 7) % 3).min(6000),
-                6 => overhead + (r as usize % 40),
-                7 => overhead.saturating_sub(r as usize % 20),
+                0 => r as usize % 65,
+                1 | 2 => 1152,
+                3 | 4 => (overhead + 11 + (r as usize / 7) % 3).min(6000),
+                5 => overhead + (r as usize % 40),
+                6 => overhead.saturating_sub(r as usize % 20),
+                7 => 1280 + r as usize % 4000,
                 _ => r as usize % 5001,
             };
             Seq { budget, steps }
@@ -456,7 +457,7 @@ pub fn run(ctx: &Ctx, rep: &mut Report) {
         cases,
         check_seq,
     );
-    let n = ctx.cases(40_000, 1_500_000);
+    let n = ctx.cases(150_000, 3_000_000);
     run_prop(
         ctx,
         rep,
